@@ -27,6 +27,14 @@ def _idiom_a(fi, res: Result, R: str) -> None:
     if not ok:
         return
     E = pops[0].func.value.id  # the edge list
+    # every cell of the matrix is a candidate edge: the list is not built through a filter (costs of either sign occur - a
+    # distance is positive, a negated similarity negative - so a test on the cost removes all edges for some scoring method)
+    eb = [s_ for s_ in astq.assignments_to(fi.node, E) if isinstance(s_, ast.Assign)]
+    filt = [c_ for s_ in eb for c_ in ast.walk(s_.value) if isinstance(c_, ast.comprehension) and c_.ifs] + \
+           [c_ for s_ in eb for c_ in ast.walk(s_.value) if isinstance(c_, ast.Call) and norm(c_.func) == "filter"]
+    res.ob(R, not filt, fi.qualname, "all (row, column) pairs are candidate edges",
+           f"the edge list `{E}` is built through a filter (`{short(filt[0].ifs[0], 40) if filt and isinstance(filt[0], ast.comprehension) else 'filter(...)'}`): for a scoring method whose "
+           "costs fail that test no detection is ever matched", fi.where)
     param = fi.node.args.args[0].arg if fi.node.args.args else "cost_matrix"
     st = enclosing_stmt(pops[0])
     rc = [norm(e) for e in st.targets[0].elts] if isinstance(st, ast.Assign) and isinstance(st.targets[0], ast.Tuple) else []
